@@ -529,6 +529,15 @@ func weight(c *Cfg) int {
 	if c.Atomic {
 		w -= 150
 	}
+	if c.Sym {
+		w -= 60
+	}
+	if c.LazyTimers {
+		w -= 60
+	}
+	if len(c.Faults) == 1 {
+		w -= 150
+	}
 	if c.Transport == "gob" {
 		w += 50
 	}
@@ -593,7 +602,17 @@ func TestCheck(t *testing.T) {
 		for i := range order {
 			order[i] = i
 		}
-		sort.SliceStable(order, func(a, b int) bool { return weight(&cfgs[order[a]]) > weight(&cfgs[order[b]]) })
+		// quick: largest first (shortest makespan).  thorough: smallest first, so that every configuration that
+		// can be exhausted is, and the ones that run into their time cap anyway take what is left.
+		sort.SliceStable(order, func(a, b int) bool {
+			if env.Thorough() {
+				return weight(&cfgs[order[a]]) < weight(&cfgs[order[b]])
+			}
+			if na, nb := len(cfgs[order[a]].Scripts), len(cfgs[order[b]].Scripts); na != nb {
+				return na > nb
+			}
+			return weight(&cfgs[order[a]]) > weight(&cfgs[order[b]])
+		})
 		outs := make([]childOutcome, len(cfgs))
 		ran := make([]bool, len(cfgs))
 		par := env.Workers
